@@ -97,6 +97,58 @@ def Path.ns : Path → Option Str | .mk _ n _ _ => n
 def Path.cls : Path → Str | .mk _ _ c _ => c
 def Path.keys : Path → Keys | .mk _ _ _ k => k
 
+/-! ## equality of paths (`==`) -/
+
+/-- NocaseDict `d[k]` / `k in d` (keys compared by casefold) -/
+def lookupKV (T : Tab) (k : Str) : Keys → Option KeyVal
+  | .nil => none
+  | .cons k' v r => if T.foldS k' = T.foldS k then some v else lookupKV T k r
+
+/-- `==` of the values that are carried as text: `float(a) == float(b)` and `CIMDateTime(a) == CIMDateTime(b)`
+    (third-party / C06 behaviour; the driver gets equivalence classes computed by the real Python) -/
+structure EqTab where
+  realSame : Str → Str → Bool
+  dtSame : Str → Str → Bool
+
+/-- mirrors pywbem/_utils.py: _eq_name (both `None`, or both set and equal after `lower()`) -/
+def eqName (T : Tab) : Option Str → Option Str → Bool
+  | none, none => true
+  | some a, some b => T.lowerS a == T.lowerS b
+  | _, _ => false
+
+def boolInt (b : Bool) : Int := if b then 1 else 0
+
+mutual
+/-- `==` of two keybinding values as NocaseDict.__eq__ evaluates it (a TypeError of the comparison counts as unequal).
+    Python's `bool` is an `int` (`True == 1`).  Not modelled: int/bool against real (`1 == 1.0`), which needs float arithmetic. -/
+def valEqB (T : Tab) (E : EqTab) : KeyVal → KeyVal → Bool
+  | .str a, .str b => a == b
+  | .bool a, .bool b => a == b
+  | .int a, .int b => a == b
+  | .bool a, .int b => boolInt a == b
+  | .int a, .bool b => a == boolInt b
+  | .real a, .real b => E.realSame a b
+  | .dt a, .dt b => E.dtSame a b
+  | .ref p, .ref q => pathEqB T E p q
+  | _, _ => false
+/-- mirrors CIMInstanceName.__eq__: _eq_name on host, namespace, classname and _eq_dict (NocaseDict.__eq__) on keybindings -/
+def pathEqB (T : Tab) (E : EqTab) : Path → Path → Bool
+  | .mk h n c ks, q =>
+    eqName T h q.host && eqName T n q.ns && T.lowerS c == T.lowerS q.cls &&
+    keysSubB T E ks q.keys && ks.names.length == q.keys.names.length
+/-- mirrors NocaseDict.__eq__: `for key, value in self.items(): key in other and value == other[key]` -/
+def keysSubB (T : Tab) (E : EqTab) : Keys → Keys → Bool
+  | .nil, _ => true
+  | .cons k v r, o =>
+    (match lookupKV T k o with
+     | some v' => valEqB T E v v'
+     | none => false) && keysSubB T E r o
+end
+
+/-- mirrors CIMClassName.__eq__ -/
+def classEqB (T : Tab) (p q : ClassPath) : Bool :=
+  eqName T p.host q.host && eqName T p.ns q.ns && T.lowerS p.cls == T.lowerS q.cls
+
 /-! ## printing -/
 
 /-- Python `s.replace(c, r)` for a one-character pattern -/
